@@ -481,7 +481,8 @@ def finish(prop, tier, seed, mod, results, wall):
     holds = [r for r in results if r['verdict'] == 'holds']
     tot = lambda key: sum(r.get(key, 0) for r in results)
     samples = []
-    for r in results[:3] + [r for r in results if r['verdict'] == 'violated'][:2]:
+    big = sorted(results, key=lambda r: -r.get('paths', 0))[:2]
+    for r in results[:2] + big + [r for r in results if r['verdict'] == 'violated'][:2]:
         s = {'obligation': r['oid'], 'harness': r['harness'], 'params': r['params'], 'verdict': r['verdict'],
              'paths': r['paths'], 'queries': r['queries'], 'assertions': r['asserts']}
         if r['fail']:
